@@ -31,6 +31,10 @@ fn main() {
     show("D1b", b"*1\rX\n$4\r\nPING\r\n");
     // D2: the two bytes after a bulk payload are not inspected
     show("D2", b"$3\r\nabcXY+OK\r\n");
+    // more D1 shapes: CR at the very end (LF may still come), fragments of a frame with a lone CR in a status line
+    show("D1c", b"+a\r");
+    show("D1d", b":12\rX\r\n+OK\r\n");
+    show("D1e", b"$3\rX\r\nabc\r\n");
     // sanity
     show("ok", b"*2\r\n$3\r\nGET\r\n$1\r\nk\r\n");
 }
